@@ -221,6 +221,11 @@ func runC18(c *run.Ctx) {
 	}
 	// end-to-end policy: every property with its default handler, globally
 	e2e := build(spec.Spec{Name: "c18-all-defaults", Base: "new", Calls: []C{els("p"), {Op: "AllowStyles", Names: props, Scope: "global"}}})
+	// the same through the other two builder scopes (one AllowStyles call naming every property)
+	e2eScopes := []built{
+		build(spec.Spec{Name: "c18-all-defaults-on", Base: "new", Calls: []C{els("p"), {Op: "AllowStyles", Names: props, Scope: "on", On: []string{"p"}}}}),
+		build(spec.Spec{Name: "c18-all-defaults-matching", Base: "new", Calls: []C{els("p"), {Op: "AllowStyles", Names: props, Scope: "matching", OnRe: `^p$`}}}),
+	}
 
 	for _, prop := range props {
 		if c.Expired() {
@@ -347,6 +352,12 @@ func runC18(c *run.Ctx) {
 				c.Violate("panic|e2e", "Sanitize panicked: "+pm, c18Case{prop, run.B64([]byte(g)), run.Q(g), "e2e-good"})
 				continue
 			}
+			for _, sb := range e2eScopes {
+				if o2, _ := San(sb.P, doc); o2 != out {
+					c.Violate("e2e-scope|"+prop, fmt.Sprintf("default handler for %s behaves differently when registered through %s: %s vs %s (input %s)", prop, sb.S.Name, run.Q(o2), run.Q(out), run.Q(doc)), c18Case{prop, run.B64([]byte(g)), run.Q(g), "e2e-scope"})
+				}
+				c.Eval()
+			}
 			if !strings.Contains(out, "style=") && g == strings.ToLower(g) && !strings.Contains(g, "  ") && cleanForDouceur(g) {
 				c.Violate("e2e-good-dropped|"+prop, fmt.Sprintf("value %s is accepted by the default handler for %s but Sanitize removed the declaration; output=%s", run.Q(g), prop, run.Q(out)), c18Case{prop, run.B64([]byte(g)), run.Q(g), "e2e-good"})
 			} else {
@@ -451,6 +462,17 @@ func replayC18(raw json.RawMessage) (bool, string) {
 			return true, "panic: " + pm
 		}
 		return ok, fmt.Sprintf("default handler for %q accepts %s", x.Prop, run.Q(v))
+	case "e2e-scope":
+		props := cssProps()
+		doc := "<p style=" + htmlAttrQuote(strings.ReplaceAll(x.Prop+": "+v, "&", "&amp;")) + ">t</p>"
+		ref, _ := San(spec.Build(spec.Spec{Base: "new", Calls: []C{els("p"), {Op: "AllowStyles", Names: props, Scope: "global"}}}), doc)
+		for _, sc := range []C{{Op: "AllowStyles", Names: props, Scope: "on", On: []string{"p"}}, {Op: "AllowStyles", Names: props, Scope: "matching", OnRe: `^p$`}} {
+			o, _ := San(spec.Build(spec.Spec{Base: "new", Calls: []C{els("p"), sc}}), doc)
+			if o != ref {
+				return true, "scopes disagree: " + run.Q(o) + " vs " + run.Q(ref)
+			}
+		}
+		return false, "scopes agree"
 	case "e2e-hostile", "e2e-good":
 		e2e := build(spec.Spec{Name: "c18-all-defaults", Base: "new", Calls: []C{els("p"), {Op: "AllowStyles", Names: cssProps(), Scope: "global"}}})
 		doc := "<p style=" + htmlAttrQuote(strings.ReplaceAll(x.Prop+": "+v, "&", "&amp;")) + ">t</p>"
